@@ -155,7 +155,14 @@ class DataStream(object):
         v_std : float
             Noise standard deviation
         """
-        noise_func = lambda ts: v_mean + v_std * self.rng.standard_normal(size=len(ts))
+        # Each noise source draws from its own generator, so that the samples it produces do
+        # not depend on how requests are chunked (sources sharing one generator would 
+        # interleave their draws per request). The first source keeps the stream's generator.
+        if len(self.noise_sources) == 0:
+            rng = self.rng
+        else:
+            rng = xp.random.default_rng(int(self.rng.integers(2**31)))
+        noise_func = lambda ts: v_mean + v_std * rng.standard_normal(size=len(ts))
         
         # Variances add, not standard deviations
         self.noise_std = xp.sqrt(self.noise_std**2 + v_std**2)
